@@ -10,6 +10,8 @@ import (
 	"os/exec"
 	"path/filepath"
 	"runtime"
+	"runtime/debug"
+	"runtime/pprof"
 	"sort"
 	"strconv"
 	"strings"
@@ -91,6 +93,7 @@ func cmdCheck(argv []string) int {
 	verbose := fs.Bool("v", false, "verbose")
 	noReplay := fs.Bool("no-replay", false, "do not replay counterexamples natively")
 	solver := fs.String("solver", "z3-new", "z3-new|z3|cvc5")
+	cpuprof := fs.String("cpuprofile", "", "write a CPU profile")
 	fs.Parse(argv[1:])
 	if s := os.Getenv("VERIF_SEED"); s != "" {
 		if n, err := strconv.Atoi(s); err == nil {
@@ -102,12 +105,20 @@ func cmdCheck(argv []string) int {
 			*tier = t
 		}
 	}
+	if *cpuprof != "" {
+		pf, err := os.Create(*cpuprof)
+		if err == nil {
+			pprof.StartCPUProfile(pf)
+			defer pprof.StopCPUProfile()
+		}
+	}
 	prop, ok := props[id]
 	if !ok {
 		fmt.Fprintln(os.Stderr, "unknown property", id)
 		return 2
 	}
 	start := time.Now()
+	debug.SetGCPercent(400)
 	vd := verifDir()
 	eng, err := NewEngine(vd, []string{"./..."})
 	if err != nil {
@@ -216,8 +227,26 @@ func cmdCheck(argv []string) int {
 	for _, l := range violLines {
 		fmt.Println(l)
 	}
-	for _, l := range inconcl {
-		fmt.Println("INCONCLUSIVE:", l)
+	{
+		cnt := map[string]int{}
+		var order []string
+		for _, l := range inconcl {
+			if cnt[l] == 0 {
+				order = append(order, l)
+			}
+			cnt[l]++
+		}
+		for i, l := range order {
+			if i >= 25 {
+				fmt.Printf("INCONCLUSIVE: … %d more distinct reasons\n", len(order)-i)
+				break
+			}
+			if cnt[l] > 1 {
+				fmt.Printf("INCONCLUSIVE: (x%d) %s\n", cnt[l], l)
+			} else {
+				fmt.Println("INCONCLUSIVE:", l)
+			}
+		}
 	}
 	if len(inconcl) > 0 {
 		exit = 2
@@ -226,6 +255,13 @@ func cmdCheck(argv []string) int {
 		exit = 1
 	}
 	writeEvidence(vd, id, prop, *tier, *seed, eng, results, stats, nViol, len(knownLines), inconcl, replayed, reproduced, start)
+	if *verbose {
+		queryStats.Range(func(k, v interface{}) bool {
+			a := v.(*[3]int64)
+			fmt.Printf("  queries %-20s unsat=%d sat=%d unknown=%d\n", k, a[0], a[1], a[2])
+			return true
+		})
+	}
 	fmt.Printf("symgo: %s %s: exit %d; %d queries (%d sat, %d unsat, %d unknown), solver %.1fs, wall %.1fs\n",
 		id, *tier, exit, stats.Queries, stats.Sat, stats.Unsat, stats.Unknown, stats.SolveTime.Seconds(), time.Since(start).Seconds())
 	return exit
